@@ -115,9 +115,12 @@ func verifBytes(name string) []byte {
 	return []byte(v)
 }
 
+var verifAssumeCount int
+
 func verifAssume(c bool) {
+	verifAssumeCount++
 	if !c {
-		verifRes.AssumeViolated = append(verifRes.AssumeViolated, fmt.Sprintf("assumption #%d", len(verifRes.AssumeViolated)))
+		verifRes.AssumeViolated = append(verifRes.AssumeViolated, fmt.Sprintf("assumption #%d", verifAssumeCount))
 		panic(verifStop{"assumption violated"})
 	}
 }
